@@ -133,13 +133,18 @@ def projections(ctx, rep, clause):
     cf = Canon(f.node, inliner=helper_inliner(program, FR))
     aliases = single_assignments(f)
 
-    def spell(e, env=None) -> str:
-        """expression with path-local bindings, function-wide single bindings and simple helpers resolved"""
+    def spell(e, env=None, rtype=None) -> str:
+        """expression with path-local bindings, function-wide single bindings and simple helpers resolved; conditional
+        expressions on the return type take the arm of the return type asked about"""
         e = copy.deepcopy(e)
         if env:
             for _ in range(4):
                 e = _Inline(env).visit(e)
-        return ' '.join(ast.unparse(cf.resolve(e)).split())
+        e = cf.resolve(e)
+        if rtype is not None:
+            from ..guards import resolve as gresolve, GuardEval as GE
+            e = gresolve(e, GE({'return_type': rtype}))
+        return ' '.join(ast.unparse(e).split())
     expect = {}
     for pname in ('number', 'label'):
         e = _SelfSubst(bind, props).visit(copy.deepcopy(props[pname]))
@@ -159,7 +164,7 @@ def projections(ctx, rep, clause):
         if not appended_all:
             continue  # reported by the exhaustiveness rule
         n += 1
-        gots = sorted({spell(a, local) for a in appended_all})
+        gots = sorted({spell(a, local, rtype) for a in appended_all})
         got = gots[0] if len(gots) == 1 else ' | '.join(gots)
         ob(rep, 'PROJ', BUILD, f"return_type '{rtype}' appends the projection of the Fragment", got == want[rtype],
            f'{got[:90]}',
